@@ -667,9 +667,13 @@ theorem allocated_area_on_die (sqrt : α → α) (st : Option (α × α)) (doc :
     off, as `glbfloor` calls it; `εA = st.area`, the class-wide area tolerance) satisfies the start-state hypotheses of
     `FV.C10.glbfloor_correct`: re-read by the allocation model of C02 (`FV.Alloc.mkAllocation`) it is accepted with
     the same cells and tolerances and is a `ValidAlloc`; all its cells lie inside the die; and for every Glb view
-    `gmods` of the netlist (`GlbModsOf`: fixed modules have the same name and rectangles) every fixed module satisfies
-    `FixedOwn`.  The three conjuncts are literally `hv`, `hin`, `hown` of `glbfloor_correct` for
-    `init = ⟨a, st, gmods⟩` and `die = dieRect W H`. -/
+    `gmods` of the netlist (`GlbModsOf`: fixed modules have the same name and rectangles, and their centre is the
+    area-weighted mean of their rectangle centres — what `Netlist._create_rectangles` /
+    `calculate_center_from_rectangles` assign to every module with rectangles) every fixed module satisfies `FixedOwn`
+    and has its centre inside the die.  The FOUR conjuncts are literally `hv`, `hin`, `hown`, `hfc` of
+    `glbfloor_correct` for `init = ⟨a, st, gmods⟩` and `die = dieRect W H` (`hfc` is stated with `FV.C10.InDie`
+    unfolded — `die.xmin ≤ x ∧ x ≤ die.xmax ∧ die.ymin ≤ y ∧ y ≤ die.ymax` — so that this file does not import
+    `FV.Props.C10`; the two are definitionally equal). -/
 theorem initial_allocation_is_glb_start (env : Alloc.Env α) (st : Alloc.Eps α) (hd : 0 ≤ st.dist) (ha : 0 ≤ st.area)
     (sqrt : α → α) (stD : Option (α × α)) (doc : Die.YV α) (inp : Die.DieIn α)
     (mods : List (Module α)) (hp : Die.parseDie doc = .ok inp)
@@ -691,7 +695,10 @@ theorem initial_allocation_is_glb_start (env : Alloc.Env α) (st : Alloc.Eps α)
             Alloc.ValidAlloc (Glb.AState.mk a st gmods).eps (Glb.AState.mk a st gmods).alloc ∧
             (∀ c ∈ (Glb.AState.mk a st gmods).alloc.cells, c.rect.isInside (Die.dieRect inp.W inp.H) = true) ∧
             (∀ f ∈ (Glb.AState.mk a st gmods).mods, f.fixed = true →
-              Glb.FixedOwn ((Glb.AState.mk a st gmods).alloc.cells.map Glb.ofCell) f) := by
+              Glb.FixedOwn ((Glb.AState.mk a st gmods).alloc.cells.map Glb.ofCell) f) ∧
+            (∀ f ∈ (Glb.AState.mk a st gmods).mods, f.fixed = true →
+              (Die.dieRect inp.W inp.H).xmin ≤ f.cx ∧ f.cx ≤ (Die.dieRect inp.W inp.H).xmax ∧
+              (Die.dieRect inp.W inp.H).ymin ≤ f.cy ∧ f.cy ≤ (Die.dieRect inp.W inp.H).ymax) := by
   obtain ⟨out, hrun, hfe, _, hW, hH, hcp, _, hfo, hex, hall⟩ :=
     die_cells_ok sqrt stD doc inp mods hp hεd hεa hv picks hacc hn hrects
   refine ⟨out, hrun, ?_⟩
@@ -711,10 +718,21 @@ theorem initial_allocation_is_glb_start (env : Alloc.Env α) (st : Alloc.Eps α)
     (Die.dieRect inp.W inp.H) hA hd ha hn hid hcp hfo hq
   refine ⟨a, h1, h2, ?_⟩
   intro gmods hg
-  refine ⟨h3, h4, ?_⟩
-  intro f hf hfx
-  obtain ⟨m, hm, hmf, hname, hrs⟩ := hg f hf hfx
-  exact h5 m hm hmf f hname.symm hrs.symm
+  refine ⟨h3, h4, ?_, ?_⟩
+  · intro f hf hfx
+    obtain ⟨m, hm, hmf, hname, hrs, _⟩ := hg f hf hfx
+    exact h5 m hm hmf f hname.symm hrs.symm
+  · intro f hf hfx
+    obtain ⟨m, hm, hmf, _, hrs, hcx, hcy⟩ := hg f hf hfx
+    have hin : ∀ r ∈ f.rects, 0 ≤ r.xmin ∧ r.xmax ≤ inp.W ∧ 0 ≤ r.ymin ∧ r.ymax ≤ inp.H := by
+      intro r hr
+      rw [← hrs] at hr
+      exact hv.inside r (List.mem_append_right _ ((mem_netFixedRects mods r).mpr ⟨m, hm, hmf, hr⟩))
+    obtain ⟨c1, c2, c3, c4⟩ := centroid_in_box f.rects inp.W inp.H (by rw [← hrs]; exact hrects m hm hmf)
+      (fun r hr => hn.proper m hm r (by rw [hrs]; exact hr)) hin
+    rw [← hcx] at c1 c2; rw [← hcy] at c3 c4
+    simp only [Die.dieRect, xmin, xmax, ymin, ymax, two_eq]
+    refine ⟨by linarith, by linarith, by linarith, by linarith⟩
 
 /-! ### non-vacuity: a concrete die + netlist (executed at `Rat`) -/
 
